@@ -154,11 +154,35 @@ func (p *preConf) OldestFirst() iter.Seq[*pending.PreConfirmed] {
 	}
 }
 
+// busyPools turns a quarter of the cases into "busy chain" cases: event emitters and keys come from pools of several
+// dozen values and one block in five carries 10..30 transactions with 2..5 events each, so that a block's events bloom has
+// many hundreds of set bits (the per-block bloom is 2048 bits wide; ordinary generated blocks set a few dozen).
+func busyPools(t *rapid.T, c *stats.Case, u *gen.Universe, ch *gen.Chain) {
+	if rapid.IntRange(0, 3).Draw(t, "busyChain") != 0 {
+		return
+	}
+	na, nk := rapid.IntRange(20, 70).Draw(t, "busyAddrs"), rapid.IntRange(10, 60).Draw(t, "busyKeys")
+	salt := rapid.Uint64Range(1, 1<<40).Draw(t, "busySalt")
+	u.EvAddrs = append([]felt.Felt{}, u.Addrs...)
+	for i := 0; i < na; i++ {
+		u.EvAddrs = append(u.EvAddrs, gen.F(salt*1000+uint64(i)+0x1000))
+	}
+	for i := 0; i < nk; i++ {
+		u.EvKeys = append(u.EvKeys, gen.F(salt*7919+uint64(i)*104729+5))
+	}
+	ch.Opt.BusyBlockOneIn = 5
+	c.Label("busy-chain")
+}
+
 func drawFilter(t *rapid.T, u *gen.Universe) filter {
 	var f filter
+	pool := u.Addrs
+	if len(u.EvAddrs) > 0 {
+		pool = u.EvAddrs
+	}
 	na := rapid.SampledFrom([]int{0, 1, 1, 2, 3}).Draw(t, "naddr")
 	for i := 0; i < na; i++ {
-		f.addrs = append(f.addrs, rapid.SampledFrom(u.Addrs).Draw(t, "faddr"))
+		f.addrs = append(f.addrs, rapid.SampledFrom(pool).Draw(t, "faddr"))
 	}
 	npos := rapid.SampledFrom([]int{0, 0, 1, 1, 2, 3}).Draw(t, "npos")
 	for i := 0; i < npos; i++ {
@@ -261,6 +285,13 @@ func (m *machine) query() {
 		}
 	}
 
+	m.runAndCompare(f, from, to, chunk, limit, pc, want, head)
+}
+
+// runAndCompare pages through one event query (continuation tokens travel through their string form) and compares the
+// concatenation of the pages with the naive scan's answer.
+func (m *machine) runAndCompare(f filter, from, to, chunk uint64, limit uint, pc *preConf, want []ev, head uint64) {
+	c := m.c
 	addrs := make([]felt.Address, len(f.addrs))
 	for i, a := range f.addrs {
 		addrs[i] = felt.Address(a)
@@ -357,6 +388,7 @@ func runCase(rt *rapid.T, c *stats.Case, baseN int) {
 	ch := bch.Fork(bch.Height())
 	ch.U = u
 	ch.Opt = gen.Opts{MaxTxs: 3, MaxEvents: 4, DenseEvents: true, FixedVersion: "0.13.2"}
+	busyPools(rt, c, u, ch)
 	m := &machine{t: rt, c: c, u: u, ch: ch, baseLen: baseN, n: node.New(newState, bdb.Copy(), u.Net), snapshotOnDisk: baseN > 0}
 	c.Fp("base%d ns%v", baseN, newState)
 	avoidStale := stats.Known(kfStaleSnapshot)
@@ -370,6 +402,12 @@ func runCase(rt *rapid.T, c *stats.Case, baseN int) {
 			t.Logf("HIST store #%d events=%d", b.Num(), b.B.EventCount)
 			if err := m.n.Store(b); err != nil {
 				c.Violation("valid-block-rejected", "store %d: %v", b.Num(), err)
+			}
+			if bits := b.B.EventsBloom.BitSet().Count(); bits > 256 {
+				c.Label("block-with-more-than-256-bloom-bits")
+				if bits > 1024 {
+					c.Label("block-with-more-than-1024-bloom-bits")
+				}
 			}
 			if b.Num()%8192 == 8191 {
 				c.Label("window-rollover")
@@ -484,6 +522,7 @@ func TestPropCacheAfterBoundaryReorg(t *testing.T) {
 			ch := bch.Fork(bch.Height())
 			ch.U = u
 			ch.Opt = gen.Opts{MaxTxs: 3, MaxEvents: 4, DenseEvents: true, FixedVersion: "0.13.2"}
+			busyPools(rt, c, u, ch)
 			m := &machine{t: rt, c: c, u: u, ch: ch, baseLen: 8186, n: node.New(newState, bdb.Copy(), u.Net), snapshotOnDisk: true}
 			c.Fp("skeleton ns%v", newState)
 			store := func(upTo int) {
